@@ -76,4 +76,16 @@ theorem wigm_prf_lower_fixed (p : Nat) (batch : Bool) (s0 t : St Int) (h0 : Init
   exact wigm_lower _ (fixed_lawful p) 2 (by norm_num) (fixed_rewLower_mulDiv p) _ rfl (fun _ => rfl) s0 t h0
     (by rw [hq]; exact start_of_init p _ s0 h0 hq1 hnoW) (by rw [hq]; exact lt_of_lt_of_le hS hq1) h
 
+theorem mpls_lower_fixed (p : Nat) (s0 t : St Int) (h0 : Init (fixedArith p) s0)
+    (hnoW : ∀ b ∈ s0.ballots, ∀ c ∈ s0.cands, c.st = .withdrawn → b.top ≠ some c.cid)
+    (h : mplsCount (fixedArith p) s0 = some t) :
+    LInv (fixedArith p) 2 (t.logAct (fixedArith p) "end" "Count Complete" []) := by
+  have hS := pow10_pos p
+  have hnn : 0 ≤ pdiv (s0.nballots : Int) ((s0.seats : Int) + 1) := pdiv_nonneg _ _ (by positivity) (by positivity)
+  have hq1 : pow10 p ≤ (fixedArith p).ofInt (pdiv s0.nballots (s0.seats + 1) + 1) := by
+    show pow10 p ≤ (pdiv (s0.nballots : Int) ((s0.seats : Int) + 1) + 1) * pow10 p
+    nlinarith
+  exact mpls_lower _ (fixed_lawful p) 2 (by norm_num) (fixed_rewLower_mulDiv p) rfl s0 t h0
+    (start_of_init p _ s0 h0 hq1 hnoW) (integer_quota_pos p s0.nballots s0.seats) h
+
 end Droop.C02
